@@ -30,7 +30,12 @@ class E0(BaseEvent):
 
 
 class E1(BaseEvent):
+    """A container-like event: it defines __len__ and is EMPTY, hence falsy (`if event:` / `event or ...` treat it as absent)."""
     tag: int = 0
+    items: list = Field(default_factory=list)
+
+    def __len__(self) -> int:
+        return len(self.items)
 
 
 class E2(BaseEvent):
@@ -38,7 +43,12 @@ class E2(BaseEvent):
 
 
 class E3(BaseEvent):
+    """Defines __bool__ (an event that says of itself whether it 'succeeded'): falsy as well."""
     tag: int = 0
+    ok: bool = False
+
+    def __bool__(self) -> bool:
+        return self.ok
 
 
 class E4(BaseEvent):
